@@ -32,6 +32,7 @@ thread_local! {
 thread_local! {
     /// an earlier sampled call (inputs + result) kept for the history-independence probe
     static PAST_CALL: RefCell<Option<(Params, Location, NaiveDate, Option<Weather>, Res)>> = RefCell::new(None);
+    static OLD_CALL: RefCell<Option<(Params, Location, NaiveDate, Option<Weather>, Res)>> = RefCell::new(None);
 }
 const PROBE_EVERY_DEFAULT: u64 = 509;
 
@@ -49,12 +50,42 @@ pub fn call(
 ) -> Result<Res, String> {
     st.evaluations += 1;
     st.tick();
+    if st.evaluations % 20_011 == 0 {
+        // fault injection between in-domain calls, alternately on this thread and on another one
+        let kind = 1 + (st.evaluations / 20_011) % 4;
+        st.count("fault_injection.out_of_domain_call_groups");
+        if (st.evaluations / 20_011) % 2 == 0 {
+            out_of_domain_calls(kind);
+        } else {
+            let _ = std::thread::scope(|s| s.spawn(|| out_of_domain_calls(kind)).join());
+        }
+    }
     let r = match catch_unwind(AssertUnwindSafe(|| prayer_times_dt(p, l, d, w))) {
         Ok(r) => Ok(r),
         Err(_) => Err(LAST_PANIC.with(|p| p.borrow().clone())),
     };
     // C07 (never panics) probes much more often: history-dependent panics need a predecessor call
     let probe_every = if st.prop == "C07" { 8 } else { PROBE_EVERY_DEFAULT };
+    if st.evaluations % 50_021 == 0 {
+        // long-delay re-execution: an input first executed >= 50 000 calls (hundreds of thousands of internal
+        // ephemeris evaluations) ago must still give the same result
+        if let Ok(res) = &r {
+            let past = OLD_CALL.with(|c| c.borrow_mut().take());
+            if let Some((pp, pl, pd, pw, pres)) = past {
+                st.count("history_probe.long_delay_reexecutions");
+                match catch_unwind(AssertUnwindSafe(|| prayer_times_dt(&pp, pl, pd, pw))) {
+                    Ok(again) => {
+                        if again != pres {
+                            let v = serde_json::json!({"history_probe": true, "date": d2s(pd), "location": format!("{pl:?}"), "params": serde_json::to_value(&pp).unwrap_or(Value::Null)});
+                            st.violate("result_depends_on_call_history", &v, serde_json::json!({"probe": "same input re-executed >= 50 000 calls later", "first": res_json(&pres), "later": res_json(&again)}));
+                        }
+                    }
+                    Err(_) => st.count("panicked_cannot_decide(see C07)"),
+                }
+            }
+            OLD_CALL.with(|c| *c.borrow_mut() = Some((p.clone(), l, d, w, res.clone())));
+        }
+    }
     if st.evaluations % probe_every == 0 {
         if let Ok(res) = &r {
             let describe = |p: &Params, l: Location, d: NaiveDate, w: Option<Weather>| {
@@ -197,6 +228,76 @@ pub fn call(
     r
 }
 
+/// Fault injection: calls OUTSIDE every property's quantifier (calendar edges, negative / far-future years, a
+/// Params value with a missing key, malformed text), each under catch_unwind and with the outcome ignored. The
+/// library keeps no state, so on correct code they change nothing; a change that adds process-wide state (a cache
+/// behind a Mutex, a OnceLock initialised by the first caller) can be left poisoned or mis-initialised by them, and
+/// the in-domain executions that FOLLOW are then judged by the ordinary oracles.
+pub fn out_of_domain_calls(kind: u64) {
+    use chrono::NaiveDate;
+    let quiet = |f: &mut dyn FnMut()| {
+        let _ = catch_unwind(AssertUnwindSafe(|| f()));
+    };
+    if kind == 1 || kind == 4 {
+        for d in [NaiveDate::MIN, ymd(-100, 3, 1), ymd(0, 12, 31), NaiveDate::MAX, ymd(20000, 1, 1), ymd(262000, 6, 1)] {
+            quiet(&mut || {
+                let h = HijriDate::from(d);
+                let _ = h.to_string();
+            });
+        }
+    }
+    if kind == 2 || kind == 4 {
+        for t in ["48,5", "1,5", "-0,25", "１２", " 45", "", "1e999", "12.5.1", "\u{e9}\u{e9}\u{e9}\u{e9}\u{e9}\u{e9}\u{e9}\u{e9}\u{e9}\u{e9}\u{e9}\u{e9}\u{e9}\u{e9}\u{e9}\u{e9}\u{e9}\u{e9}"] {
+            quiet(&mut || {
+                let _ = t.parse::<Latitude>();
+                let _ = t.parse::<Longitude>();
+                let _ = t.parse::<Elevation>();
+                let _ = t.parse::<Gmt>();
+                let _ = serde_json::from_str::<Latitude>(t);
+                let _ = serde_json::from_str::<Pressure>(t);
+                let _ = serde_json::from_str::<Location>(t);
+            });
+        }
+    }
+    if kind == 3 || kind == 4 {
+        let sites = [loc(60.0, 10.0, 0.0, 1.0), loc(-60.0, -70.0, 0.0, -4.0), loc(89.9, 0.0, 0.0, 0.0), loc(21.4, 39.8, 0.0, 3.0)];
+        for d in [NaiveDate::MAX, NaiveDate::MIN, ymd(262000, 6, 21), ymd(-262000, 12, 21), ymd(-1, 6, 21)] {
+            for l in sites {
+                for m in [Method::Mwl, Method::UmmAlQurra] {
+                    quiet(&mut || {
+                        let _ = prayer_times_dt(&Params::new(m), l, d, None);
+                    });
+                    quiet(&mut || {
+                        let mut p = Params::new(m);
+                        p.extreme_latitude_method = ExtremeLatitudeMethod::NearestGoodDayAllPrayersAlways;
+                        let _ = prayer_times_dt(&p, l, d, None);
+                    });
+                }
+            }
+        }
+        // a Params value with a missing key (e.g. from an incomplete JSON document)
+        for key in [Prayer::Fajr, Prayer::Isha, Prayer::Imsaak] {
+            quiet(&mut || {
+                let mut p = Params::new(Method::Mwl);
+                p.angles.remove(&key);
+                p.minutes.remove(&key);
+                let dr = DateRange::from(ymd(2023, 6, 1)..=ymd(2023, 6, 5));
+                let _ = prayer_times_dt_rng(&p, loc(60.0, 10.0, 0.0, 1.0), &dr);
+            });
+            quiet(&mut || {
+                let mut p = Params::new(Method::Mwl);
+                p.intervals.remove(&key);
+                let dr = DateRange::from(ymd(2023, 6, 1)..=ymd(2023, 6, 5));
+                let _ = prayer_times_dt_rng_block(&p, loc(60.0, 10.0, 0.0, 1.0), &dr, 0);
+            });
+        }
+        quiet(&mut || {
+            let dr = DateRange::from(NaiveDate::MAX.pred_opt().unwrap()..=NaiveDate::MAX);
+            let _ = prayer_times_dt_rng(&Params::new(Method::Mwl), loc(60.0, 10.0, 0.0, 1.0), &dr);
+        });
+    }
+}
+
 /// bisection down to adjacent f64 values: `pred(a)` must be true and `pred(b)` false on entry;
 /// returns (last value where pred holds, first value where it does not)
 pub fn bisect(mut a: f64, mut b: f64, mut pred: impl FnMut(f64) -> bool) -> (f64, f64) {
@@ -222,6 +323,13 @@ pub fn guarded<T>(f: impl FnOnce() -> T) -> Result<T, String> {
 }
 
 pub fn run(ctx: &Ctx, st: &mut Stats) -> bool {
+    // prelude: in 4 of every 5 shards the very first library calls of the process / thread are out-of-domain ones
+    // (first-call-wins initialisation, poisoning); the fifth shard starts with in-domain calls only
+    let prelude = ctx.shard % 5;
+    if prelude != 0 && ctx.build != "miri" {
+        out_of_domain_calls(prelude);
+        st.count(&format!("fault_injection.prelude_kind{prelude}"));
+    }
     match ctx.prop.as_str() {
         "C01" => c01::run(ctx, st),
         "C02" => c02::run(ctx, st, "C02"),
